@@ -859,6 +859,7 @@ def run_op(case, tab, seed):
     want = K0 - K1
     tol = K_TOL * (1.0 + abs(K0) + abs(K1))
     res["metrics"]["hastings"] = abs(hval - want) / tol if math.isfinite(hval) else math.inf
+    res["metrics"]["hval"] = hval
     if not abs(hval - want) <= tol:
         U0 = -target.logp(q0)
         U1 = -target.logp(c["q_out"])
@@ -1043,6 +1044,16 @@ def run(run):
     tier, seed = run.tier, run.seed
     tt.boot()
     cases = traj_cases(tier) + op_cases(tier) + mcmc_cases(tier)
+    closed_form = 0
+    for name, (kind, d, split) in _tab(tier).items():
+        nm = len(masses(tier))
+        closed_form += nm * len(EPS) * len(STEPS) * len(corner_ids(d, tier))          # traj, constructed
+        closed_form += (nm if tier == "thorough" else 2) * len(EPS) * len(STEPS) * 3   # traj, other ways
+        closed_form += nm * len(OP_EL) * 2 * 5                                         # op, no failure
+        closed_form += 2 * ((3 + 3) * 2 + 2) + (2 * 5 if kind == "gamma" else 0)       # op, failures
+        closed_form += 3 * len(MCMC_EL) * 2                                            # mcmc
+    if closed_form != len(cases) or len({jdump(c) for c in cases}) != len(cases):
+        raise RuntimeError(f"enumeration produced {len(cases)} cases, closed form says {closed_form}")
     items = [(tier, seed, c) for c in cases]
     # interleave so that every chunk has the same mix of cheap and expensive cases
     n_chunks = 16 * 12
@@ -1052,7 +1063,6 @@ def run(run):
     counts = {}
     status = {}
     distinct = set()
-    n_traj_runs = 0
     worst = {"rev": 0.0, "det": 0.0, "hastings": 0.0}
     jac_done = jac_skipped = jac_unresolved = jac_refined = 0
     fail_planned = fail_effective = gave_up = loud = 0
@@ -1064,10 +1074,10 @@ def run(run):
         if r["status"] == "stable":
             if case["kind"] == "traj":
                 distinct.add(f"{m.get('dH', 0.0):.10e}")
-            elif case["kind"] == "op" and "hastings" in m:
-                distinct.add(("op", jdump(case)))
+            elif case["kind"] == "op" and "hval" in m:
+                distinct.add(("op", f"{m['hval']:.10e}", case["mode"], jdump(case["fail"]), case.get("prelude")))
             elif case["kind"] == "mcmc" and "acc" in m:
-                distinct.add(("mcmc", round(m["acc"], 14)))
+                distinct.add(("mcmc", f"{m['dH']:.10e}"))
         if case["kind"] == "op" and case["fail"] and r["status"] == "stable":
             fail_planned += 1
             want = min(case["fail"]["trials"], 10)
@@ -1115,10 +1125,11 @@ def run(run):
                 "of a trial x {1,2,10} failing trials (+ natural overflow failures on the gamma targets); mcmc: "
                 "every target x mass(3) x (eps,L)(3) x answer(2) x uniform just below/above the oracle "
                 "acceptance probability.  non-trivial = regular-regime elements with pairwise different energy "
-                "errors / acceptance probabilities / operator cases",
+                "errors (traj), Hastings values per operator scenario (op), Hamiltonian differences (mcmc)",
         "samples": samples,
         "exhaustive": True,
         "space_size": len(cases),
+        "space_size_closed_form": closed_form,
         "traj_cases": counts.get("traj", 0),
         "op_cases": counts.get("op", 0),
         "mcmc_cases": counts.get("mcmc", 0),
